@@ -215,6 +215,7 @@ def _model_loop(E, dt, steps, msteps, dtid, k, ctx, modtext, modname):
     m = D.Machine(env, ctx.get('defaults'))
     ns = None
     window = []         # actual outputs since the previous want
+    window_keep = []    # the same, if an expected exception does *not* close the window
     anything = False
     for idx, st in enumerate(steps):
         ms = msteps[idx]
@@ -284,8 +285,9 @@ def _model_loop(E, dt, steps, msteps, dtid, k, ctx, modtext, modname):
             if want in TB_KINDS:
                 mt = tb_matches(st, ex, flags)
                 if mt is True:
-                    # "since the previous want": an expected-exception want is a want
-                    window = []
+                    # "since the previous want": an expected-exception want is a want -- or is it?
+                    # The statement does not say; window_keep remembers the other reading.
+                    window = []  # keep: window_keep
                     continue
                 if mt is None:
                     E.silent.add('verdict')
@@ -300,9 +302,11 @@ def _model_loop(E, dt, steps, msteps, dtid, k, ctx, modtext, modname):
         # ---- no exception
         if not want:
             window.append(res['out'])
+            window_keep.append(res['out'])
             continue
         if flags['IGNORE_WANT']:
             window = []
+            window_keep = []
             continue
         if want in TB_KINDS:
             if isinstance(res['value_repr'], tuple):
@@ -318,6 +322,7 @@ def _model_loop(E, dt, steps, msteps, dtid, k, ctx, modtext, modname):
             # (only generated where the statement is evaluated as an expression, not in REPL mode)
             if W.is_expr(st) and not res['has_value']:
                 window = []
+                window_keep = []
                 continue
             _fail(E, idx, ['GotWantException'], True, (ms['want_line'], ms['want_line']))
             break
@@ -327,6 +332,7 @@ def _model_loop(E, dt, steps, msteps, dtid, k, ctx, modtext, modname):
             ok = flags['ELLIPSIS'] and isinstance(res['value_repr'], str) and res['value_repr'].startswith('<coroutine object Peer.aop at ')
             if ok:
                 window = []
+                window_keep = []
                 continue
             _fail(E, idx, ['GotWantException'], True, (ms['want_line'], ms['want_line']))
             break
@@ -339,6 +345,7 @@ def _model_loop(E, dt, steps, msteps, dtid, k, ctx, modtext, modname):
                 break
             if flags['ELLIPSIS'] and res['out'].startswith(pre):
                 window = []
+                window_keep = []
                 continue
             _fail(E, idx, ['GotWantException'], True, (ms['want_line'], ms['want_line']))
             break
@@ -353,6 +360,7 @@ def _model_loop(E, dt, steps, msteps, dtid, k, ctx, modtext, modname):
             # repr raised: only consulted when stdout does not settle it
             if res['out'] and (same(full, wt) or same(res['out'], wt)):
                 window = []
+                window_keep = []
                 continue
             _fail(E, idx, ['ExtractGotReprException', vr[1]], False, (ms['first'], ms['last']))
             E.notes.append('repr of the value raised')
@@ -362,6 +370,7 @@ def _model_loop(E, dt, steps, msteps, dtid, k, ctx, modtext, modname):
         ok_repr = vr is not None and same(vr, wt)
         if ok_full or ok_last or ok_repr:
             window = []
+            window_keep = []
             continue
         # "printed text then echoed value": satisfied in REPL mode only, and which
         # mode a statement runs in is not what the documentation fixes (F6): silent
@@ -374,6 +383,13 @@ def _model_loop(E, dt, steps, msteps, dtid, k, ctx, modtext, modname):
             # three documented forms: the property neither requires pass nor fail
             E.silent.add('verdict')
             E.notes.append('want is a proper suffix of the window: model silent')
+            break
+        fullk = ''.join(window_keep + [res['out']])
+        if fullk != full and fullk.rstrip('\n').endswith(wt.rstrip('\n')):
+            # only text from before an expected exception makes the difference: whether such a
+            # want closes the output window is not what the statement fixes
+            E.silent.add('verdict')
+            E.notes.append('want reaches back across an expected exception: model silent')
             break
         _fail(E, idx, ['GotWantException'], True, (ms['want_line'], ms['want_line']))
         break
